@@ -71,8 +71,15 @@ EXHAUSTIVE_SCOPE = ('all ordered pairs of token sequences of length 0-4 over {a,
                     'the thorough tier; random and single-run families are sampled')
 
 
-def base_opts(regex, dist, sbs_view=False):
+def base_opts(regex, dist, sbs_view=False, by_reference=False):
     o = gen.tagged_styles()
+    if by_reference:
+        # the emphasis styles given as references to other style options (a documented way to write a style): same
+        # rendering as the value referred to
+        o['--minus-empty-line-marker-style'] = o['--minus-emph-style']
+        o['--plus-empty-line-marker-style'] = o['--plus-emph-style']
+        o['--minus-emph-style'] = 'minus-empty-line-marker-style'
+        o['--plus-emph-style'] = 'plus-empty-line-marker-style'
     o['--paging'] = 'never'
     o['--syntax-theme'] = 'none'
     o['--word-diff-regex'] = regex
@@ -148,7 +155,7 @@ def paired(cells):
     return any(cl in ('emph', 'nonemph') for _, cl in cells)
 
 
-def run_subhunks(subhunks, regex, dist, sbs_view=False):
+def run_subhunks(subhunks, regex, dist, sbs_view=False, by_reference=False):
     """subhunks: list of (minus_lines, plus_lines).  Returns (res, per-subhunk list of (minus_infos, plus_infos)) for
     unified view."""
     lines = ['diff --git a/f b/f', '--- a/f', '+++ b/f']
@@ -158,7 +165,7 @@ def run_subhunks(subhunks, regex, dist, sbs_view=False):
         lines += ['-' + m for m in ms] + ['+' + p for p in ps] + [' ZZctxZZ']
         o += 1
     data = ('\n'.join(lines) + '\n').encode()
-    res = runner.run_delta(gen.to_args(base_opts(regex, dist, sbs_view)), data, timeout=120)
+    res = runner.run_delta(gen.to_args(base_opts(regex, dist, sbs_view, by_reference)), data, timeout=120)
     return res
 
 
@@ -458,8 +465,9 @@ def run_single(item):
         plus = ' '.join(P + Y + S)
         subhunks.append(([minus], [plus]))
         specs.append((' '.join(X), ' '.join(Y)))
-    res = run_subhunks(subhunks, regex, dist)
-    outs = outcomes_for(res, subhunks, regex, dist, 'single-run')
+    by_ref = seed % 3 == 0
+    res = run_subhunks(subhunks, regex, dist, by_reference=by_ref)
+    outs = outcomes_for(res, subhunks, regex, dist, 'single-run' + ('/styles-by-reference' if by_ref else ''))
     if crash_outcome(res, ID) is not None or res.rc != 0:
         return outs
     groups = split_unified(res, subhunks)
